@@ -120,6 +120,13 @@ StartSelfClean ==
      /\ out' = [b0 |-> [sent |-> TRUE, w |-> w, buzz |-> B(beep)], b1 |-> NoB1]
      /\ UNCHANGED <<beep, upd, sup, rb>>
 
+(* the unit finishes its self-clean cycle by itself: the register falls back to 0 and the next read reports it *)
+CleanDone ==
+  /\ PCLEAN \in DOMAIN reg /\ reg[PCLEAN] = 1
+  /\ reg' = [reg EXCEPT ![PCLEAN] = 0]
+  /\ written' = [i \in DOMAIN written \ {PCLEAN} |-> written[i]]
+  /\ out' = NoOut /\ UNCHANGED <<attr, beep, upd, sup, rb>>
+
 (* refresh(): GetState (not modelled here) and, iff the client knows supported ids, ONE property query *)
 Refresh ==
   IF sup = {} THEN /\ out' = NoOut /\ written' = Empty /\ UNCHANGED <<attr, beep, upd, sup, reg, rb>>
@@ -139,7 +146,7 @@ Rates == {100, 50, 75, 1, 20, 40, 60, 80}
 DNext == \/ \E b \in BOOLEAN : SetBreezeAway(b) \/ SetBreezeMild(b) \/ SetBreezeless(b) \/ SetIeco(b) \/ SetBeep(b)
          \/ \E v \in Rates : SetRate(v)
          \/ \E v \in Angles : SetLR(v) \/ SetUD(v)
-         \/ Apply \/ Refresh \/ GetCaps \/ StartSelfClean
+         \/ Apply \/ Refresh \/ GetCaps \/ StartSelfClean \/ CleanDone
 
 (* ---------------- properties ---------------- *)
 ReadBackEqual == rb
